@@ -154,7 +154,7 @@ def classify(group, res):
                 if info["kind"] == "clause":
                     hit_clauses.append(info["id"])
                 elif info["kind"] in ("src", "hint"):
-                    hit_src.append(info)
+                    hit_src.append(dict(info, gen_line=ln, gen_text=(group.out.lines[ln - 1].strip() if ln - 1 < len(group.out.lines) else "")))
                 else:
                     hit_tmpl.append(info)
         fails.append({"msg": msg, "rlimit": rl, "clauses": hit_clauses, "src": hit_src, "tmpl": hit_tmpl,
@@ -605,11 +605,19 @@ def report(pid, pc, tier, seed, results, extra_results, wall):
                                         "rendered": "", "src": []}})
     seen_body = set()
     for fn, f, g in body_fail:
-        if fn in seen_body:
+        # one report per (function, source line); the text of the source line lets a known finding name exactly one
+        # failing statement of a function (known_findings.txt: at=<substring of that line>)
+        at_line, at_text = None, ""
+        for sx in (f.get("src") or []):
+            at_line = sx.get("gen_line")
+            at_text = re.sub(r"/\*VX[A-Z]+ [^*]*\*/", "", sx.get("gen_text", "")).strip()[:160]
+            break
+        if (fn, at_line) in seen_body:
             continue
-        seen_body.add(fn)
-        violations.append({"clause": "%s.body(%s)" % (pid, fn.split("::")[-1].strip()), "fn": fn,
-                           "text": "implicit obligation (call precondition / assertion / overflow / bounds) in the body",
+        seen_body.add((fn, at_line))
+        violations.append({"clause": "%s.body(%s)" % (pid, fn.split("::")[-1].strip()), "fn": fn, "at": at_text,
+                           "text": "implicit obligation (call precondition / assertion / overflow / bounds) in the body"
+                                   + ((" at `%s`" % at_text) if at_text else ""),
                            "diag": f})
     kani_ev = []
     for er in extra_results:
@@ -628,9 +636,10 @@ def report(pid, pc, tier, seed, results, extra_results, wall):
     out_lines = []
     real = []
     for v in violations:
-        k = [x for x in kf if x.get("property") == pid and x.get("clause") == v["clause"]]
+        k = [x for x in kf if x.get("property") == pid and x.get("clause") == v["clause"]
+             and ("at" not in x or x["at"] in v.get("at", ""))]
         if k:
-            out_lines.append("KNOWN-FINDING: property=%s %s" % (pid, k[0]["line"][len("finding:"):].strip()))
+            out_lines.append("KNOWN-FINDING: property=%s %s" % (pid, re.sub(r"^property=\S+\s*", "", k[0]["line"][len("finding:"):].strip())))
         else:
             real.append(v)
     if real:
